@@ -58,7 +58,7 @@ const (
 	// running == false and scheduledCount == 0, i.e. after at most one more cycle; 200 is two
 	// orders of magnitude of slack and counts logical steps of the writer, not time, so it does
 	// not depend on machine load.
-	spinBound = 200
+	spinBound     = 200
 	fpDoneEarly   = "done-before-commit"
 	fpDoneNoWrite = "done-without-write"
 	fpHalf        = "write-without-commit-or-done"
@@ -242,6 +242,7 @@ type obj struct {
 	version   atomic.Int64
 	scheduled atomic.Bool
 	fmu       sync.Mutex
+	dup       *gate // set before the goroutines that may reach it are started
 }
 
 func (o *obj) BatchWrite(bm kvstore.BatchedMutations) {
@@ -264,10 +265,19 @@ func (o *obj) BatchWriteScheduled() bool {
 	}
 	// fmu makes the log order of flag events equal to their real order
 	o.fmu.Lock()
-	defer o.fmu.Unlock()
-	if o.scheduled.CompareAndSwap(false, true) {
+	swapped := o.scheduled.CompareAndSwap(false, true)
+	if swapped {
 		o.s.m.log(ev{K: 'G', P: o.s.actorIdx(), O: o.id})
+	}
+	o.fmu.Unlock()
+	if swapped {
 		return false
+	}
+	// "already scheduled": a gated schedule may hold the caller here, i.e. between Enqueue's
+	// accounting of the object and its early return (the object's method is simply slow)
+	if g := o.dup; g != nil && g.used.CompareAndSwap(false, true) {
+		close(g.reached)
+		<-g.release
 	}
 	return true
 }
@@ -896,7 +906,9 @@ func (s *scen) analyze() *analysis {
 		}
 	}
 	an.enqCalls, an.writes = len(enqs), len(writes)
+	s.m.mu.Lock()
 	an.empty += s.m.compacted
+	s.m.mu.Unlock()
 	for _, w := range writes {
 		if w.commit < 0 || w.done < 0 {
 			add(fpHalf, "obj%d.BatchWrite at tick %d (batch%d) but at the end of the run commit=%v done=%v (writer goroutine gone or idle for ever)", w.o, w.t, w.b, w.commit >= 0, w.done >= 0)
@@ -1110,6 +1122,8 @@ func runCase(c *vf.Ctx, cs *caseRec) (fps []string, ok bool) {
 		return runGated(c, cs)
 	case "enqstop":
 		return runEnqStop(c, cs)
+	case "dupflush":
+		return runDupFlush(c, cs)
 	case "stress":
 		return runStress(c, cs)
 	}
@@ -1188,6 +1202,104 @@ func runGated(c *vf.Ctx, cs *caseRec) ([]string, bool) {
 		return nil, false
 	}
 	return s.report(shortPoint(cs.Point) + "/" + cs.Release + "/" + state), !s.abortAfter
+}
+
+// runDupFlush: a Flush is served while Enqueues that have accounted for their object have not sent
+// it yet, and one of them retracts. F enqueues X and is held at bw.enqueue.beforeSend (flag set,
+// counted, not sent); P enqueues the same X and is held inside X.BatchWriteScheduled() after it
+// found the flag set (counted, about to return early); Flush; once the writer has served the
+// flush (it cycled through empty batches, or it parked in a channel receive of its own, or it
+// sat idle for idleBound), F is released (X is sent and collected), then P (retracts), then Stop.
+func runDupFlush(c *vf.Ctx, cs *caseRec) ([]string, bool) {
+	s := newScen(c, cs, 1+cs.InFlight)
+	cur.Store(s)
+	defer cur.Store(nil)
+	mainA := s.self("main")
+	for i := 0; i < cs.InFlight; i++ {
+		s.enqueue(mainA, s.objs[1+i])
+	}
+	x := s.objs[0]
+	guard := func(what string, gates ...*gate) ([]string, bool) {
+		c.Inconclusive(cs.name() + ": case guard expired waiting for " + what)
+		for _, g := range gates {
+			close(g.release)
+		}
+		return nil, false
+	}
+	gF := &gate{point: pointB, reached: make(chan struct{}), release: make(chan struct{})}
+	gP := &gate{reached: make(chan struct{}), release: make(chan struct{})}
+	x.dup = gP
+	start := make(chan struct{})
+	f := s.spawn("producer", 0, start, func(a *actor) { s.enqueue(a, x) })
+	gF.a = f
+	s.gate = gF
+	close(start)
+	select {
+	case <-gF.reached:
+		if !s.probeWriter() {
+			close(gF.release)
+			return nil, false
+		}
+	case <-f.done:
+		c.Inconclusive(fmt.Sprintf("%s: Enqueue returned without reaching yield point %s", cs.name(), pointB))
+		return nil, true
+	}
+	p := s.spawn("producer", 0, nil, func(a *actor) { s.enqueue(a, x) })
+	select {
+	case <-gP.reached:
+	case <-p.done:
+		c.Inconclusive(cs.name() + ": duplicate Enqueue returned without calling BatchWriteScheduled on a scheduled object")
+		close(gF.release)
+		return nil, true
+	}
+	l0 := s.m.emptyLoops.Load()
+	s.m.log(ev{K: 'F', P: mainA.idx})
+	s.bw.Flush()
+	var w waiter
+	var idle idleTracker
+	served := ""
+	for served == "" {
+		gs := s.snapshot()
+		wg, wa := liveWriter(gs)
+		switch {
+		case !wa:
+			served = "writer-gone"
+		case strings.HasPrefix(wg.State, "chan receive") && selectInKvstore(wg):
+			served = "writer-in-receive"
+		case s.m.emptyLoops.Load() >= l0+2:
+			served = "writer-cycled"
+		case idle.observe(s.m, wg, true) >= cs.idleBound():
+			served = "writer-idle"
+		default:
+			if !w.pause() {
+				return guard("the Flush to be served", gF, gP)
+			}
+		}
+	}
+	c.Count("dupflush_windows_entered", 1)
+	c.Count("dupflush_flush_served:"+served, 1)
+	close(gF.release)
+	for !closed(f.done) || x.scheduled.Load() {
+		// F's send is received by the writer, which resets X's flag when it collects it
+		gs := s.snapshot()
+		if fg, found := gdump.Find(gs, f.gid.Load()); !writerAlive(gs) && found && inEnqueueSend(fg) {
+			break // rule R1 will decide
+		}
+		if !w.pause() {
+			return guard("X to be sent and collected", gP)
+		}
+	}
+	close(gP.release)
+	for !closed(p.done) {
+		if !w.pause() {
+			return guard("the duplicate Enqueue to return")
+		}
+	}
+	s.spawn("stopper", 0, nil, func(a *actor) { s.stop(a) })
+	if !s.finishWait() {
+		return nil, false
+	}
+	return s.report("dupflush/" + served), !s.abortAfter
 }
 
 func shortPoint(p string) string {
@@ -1412,6 +1524,16 @@ func genCases(c *vf.Ctx) (plain, race []caseRec) {
 			plain = append(plain, enqstop(cf))
 		}
 	}
+	dupflush := func(cf cfg) caseRec {
+		cs := mk("dupflush", cf)
+		cs.InFlight = rng.Intn(3)
+		return cs
+	}
+	for rep := c.Pick(2, 30); rep > 0; rep-- {
+		for _, cf := range cfgs {
+			plain = append(plain, dupflush(cf))
+		}
+	}
 	for n := c.Pick(1000, 9000); n > 0; n-- {
 		plain = append(plain, stress())
 	}
@@ -1421,6 +1543,7 @@ func genCases(c *vf.Ctx) (plain, race []caseRec) {
 		for _, cf := range cfgs {
 			race = append(race, asRace(gated(cf, pointA), false), asRace(gated(cf, pointB), false))
 			race = append(race, asRace(enqstop(cf), rep%2 == 0), asRace(enqstop(cf), true))
+			race = append(race, asRace(dupflush(cf), false))
 		}
 	}
 	for n := c.Pick(800, 9000); n > 0; n-- {
@@ -1507,6 +1630,7 @@ func runShardOnce(c *vf.Ctx, mode string, cases []caseRec, raceBuild bool, timeo
 			c.Inconclusive(fmt.Sprintf("child %s exited with code %d (last case %s), stderr %s", mode, res.ExitCode, last.name(), res.StderrPath))
 		}
 	}
+	return resume
 }
 
 // reportRaces: vf.ReportRaces' de-duplication key cuts function names at the first '(' and so
@@ -1522,6 +1646,7 @@ func reportRaces(c *vf.Ctx, rs []vf.RaceReport) {
 		}
 		var fns []string
 		touches := false
+		harnessAccess := false // an access whose innermost main./hive.go frame is harness code: a race of the harness itself
 		for _, blk := range strings.Split(head, "\n\n") {
 			for _, l := range strings.Split(blk, "\n") {
 				if !strings.HasPrefix(l, "  ") || strings.HasPrefix(l, "   ") || !strings.HasSuffix(l, ")") {
@@ -1530,6 +1655,10 @@ func reportRaces(c *vf.Ctx, rs []vf.RaceReport) {
 				fn := strings.TrimSpace(l)
 				if i := strings.LastIndexByte(fn, '('); i > 0 {
 					fn = fn[:i]
+				}
+				if strings.HasPrefix(fn, "main.") {
+					harnessAccess = true
+					break
 				}
 				if strings.Contains(fn, "iotaledger/hive.go/") {
 					if strings.Contains(fn, "hive.go/kvstore") {
@@ -1542,6 +1671,11 @@ func reportRaces(c *vf.Ctx, rs []vf.RaceReport) {
 		}
 		sort.Strings(fns)
 		key := strings.Join(fns, " <-> ")
+		if harnessAccess {
+			c.Count("race_reports_harness_own", 1)
+			c.Note("race inside the harness (not attributed to hive.go): " + strings.Join(fns, " <-> "))
+			continue
+		}
 		if seen[key] {
 			continue
 		}
@@ -1590,7 +1724,7 @@ func run(c *vf.Ctx) {
 		replay(c)
 		return
 	}
-	c.SetRule("one evaluation = one run of the real BatchedWriter (mapdb behind a logging wrapper) whose merged event log is checked after all callers returned or were decided blocked for ever and the writer goroutine exited; runs are gated (producer parked at bw.enqueue.afterRunningCheck / bw.enqueue.beforeSend while StopBatchWriter completes or parks; queue {0,1,2,256} x batch {1,2,5,1000} x time-out {0,1ns,1ms,20ms,-1ms} x 0-3 objects in flight x release early/late), 'Enqueue immediately followed by Stop', and seeded stress (1-8 producers, 1-4 objects, Flush, jittered yields, Stop at a random operation count), in plain and -race builds; distinct_nontrivial counts distinct (scenario, gate state, queue class, order of yield/flag/send-return/Stop-return/BatchWrite/Commit/Done/Cancel/Batched events from Stop's invocation on) of runs in which at least one Enqueue overlapped StopBatchWriter or an accepted object was still unwritten when Stop was invoked")
+	c.SetRule("one evaluation = one run of the real BatchedWriter (mapdb behind a logging wrapper) whose merged event log is checked after all callers returned or were decided blocked for ever and the writer goroutine exited; runs are gated (producer parked at bw.enqueue.afterRunningCheck / bw.enqueue.beforeSend while StopBatchWriter completes or parks; queue {0,1,2,256} x batch {1,2,5,1000} x time-out {0,1ns,1ms,20ms,-1ms} x 0-3 objects in flight x release early/late), 'Enqueue immediately followed by Stop', duplicate-Enqueue-retracts-while-a-Flush-is-served (one Enqueue held at beforeSend, a duplicate held inside BatchWriteScheduled after it found the flag set), and seeded stress (1-8 producers, 1-4 objects, Flush, jittered yields, Stop at a random operation count), in plain and -race builds; distinct_nontrivial counts distinct (scenario, gate state, queue class, order of yield/flag/send-return/Stop-return/BatchWrite/Commit/Done/Cancel/Batched events from Stop's invocation on) of runs in which at least one Enqueue overlapped StopBatchWriter or an accepted object was still unwritten when Stop was invoked")
 	plain, race := genCases(c)
 	c.Count("cases_generated_plain", len(plain))
 	c.Count("cases_generated_race", len(race))
@@ -1622,6 +1756,7 @@ func run(c *vf.Ctx) {
 	c.Require("batches_partial_timeout_certain", 100)
 	c.Require("flush_calls", 100)
 	c.Require("runs_stress", c.Pick(1700, 17000))
+	c.Require("dupflush_windows_entered", c.Pick(200, 3000))
 	c.Require("writer_probes_seen", c.Pick(3000, 40000)) // blindness self-check: the rules did identify writer goroutines
 	for _, t := range timeouts {
 		c.Require("runs_gated_timeout="+t.String(), c.Pick(250, 3500))
